@@ -28,11 +28,15 @@ Inductive expr :=
 | EOr (a b : expr)
 | EPostInc (x : nat).
 
-Record state := mkst { store : list (nat * val); out : list val; polls : Z; halt_at : Z }.
+(* [snap]: the host-call log at the moment the injected interrupt fired (what the
+   run must have committed if the script stops there) *)
+Record state := mkst { store : list (nat * val); out : list val; polls : Z; halt_at : Z;
+                       snap : option (list val) }.
 
 Definition tick (s : state) : state * option val :=
   let p := polls s + 1 in
-  (mkst (store s) (out s) p (halt_at s), if p =? halt_at s then Some VHalt else None).
+  if p =? halt_at s then (mkst (store s) (out s) p (halt_at s) (Some (out s)), Some VHalt)
+  else (mkst (store s) (out s) p (halt_at s) (snap s), None).
 
 Fixpoint lookup (x : nat) (m : list (nat * val)) : option val :=
   match m with
@@ -45,9 +49,9 @@ Fixpoint update (x : nat) (v : val) (m : list (nat * val)) : list (nat * val) :=
   | (y, w) :: m' => if Nat.eqb x y then (y, v) :: m' else (y, w) :: update x v m'
   end.
 Definition set_var (s : state) (x : nat) (v : val) : state :=
-  mkst (update x v (store s)) (out s) (polls s) (halt_at s).
+  mkst (update x v (store s)) (out s) (polls s) (halt_at s) (snap s).
 Definition emit (s : state) (v : val) : state :=
-  mkst (store s) (out s ++ [v]) (polls s) (halt_at s).
+  mkst (store s) (out s ++ [v]) (polls s) (halt_at s) (snap s).
 
 Definition truthy (v : val) : bool :=
   match v with
@@ -166,7 +170,7 @@ Inductive outcome :=
 | OOutOfFuel.
 
 Definition init_state (declared : list nat) (halt : Z) : state :=
-  mkst (map (fun x => (x, VUndef)) declared) [] 0 halt.
+  mkst (map (fun x => (x, VUndef)) declared) [] 0 halt None.
 
 Definition outcome_o (r : ores val) : outcome :=
   match r with
